@@ -787,7 +787,7 @@ def site_atomic_increment(fns):
             ob.must_hold(len([x for x in commits if idx_of(p, x) > idx_of(p, e)]) == 1, "reservation committed after creation")
             ob.must_hold(len([x for x in events(p, "::insert_into_tree") if idx_of(p, x) > idx_of(p, e)]) == 1, "ordered index filled after the hash table")
     ob.must_hold(occ >= 1 and vac >= 1, "both the replace and the create sites were reached")
-    return ob.result(it, witness=[("pointer-identical", "c07_lost_increment"), ("", None)])
+    return ob.result(it, witness=[("identity", "c07_lost_increment"), ("pointer-identical", "c07_lost_increment"), ("", None)])
 
 
 def sites_c12(fns):
